@@ -129,6 +129,21 @@ func runFaults(prop string, seed uint64, n int, tier string) {
 	// are answered on time: the timed-out RPC fails with a timeout, the late reply is not handed to
 	// a later RPC (recovery clause for NETCONF)
 	var ncs []*ncCase
+	if prop == "C06" {
+		// NETCONF: the stream ends (or fails) between two RPCs while writes still succeed (half-open):
+		// every later RPC -- not only the first -- must report the loss promptly
+		for i := 0; i < n/4; i++ {
+			r := rng.Fork()
+			c := genNC("C03", r)
+			c.Prop = "C06"
+			c.Ops = genNCOps(r, 3+r.Intn(4), false)
+			c.Coalesce = 0
+			c.TimeoutMS = 400
+			c.LossAfter = 1 + r.Intn(len(c.Ops)-2)
+			c.Loss = r.Pick([]string{"eof", "eof", "ioerr"})
+			ncs = append(ncs, c)
+		}
+	}
 	if prop == "C05" {
 		for i := 0; i < n/3; i++ {
 			r := rng.Fork()
